@@ -34,8 +34,9 @@ X == ExpectedSel(R.fmt, R.items, R.conf.limit, R.conf.passes, Range(R.conf.chose
 RECURSIVE Agree(_, _, _)
 Agree(a, b, i) == IF i > Len(a) \/ i > Len(b) \/ a[i] # b[i] THEN i - 1 ELSE Agree(a, b, i + 1)
 
-\* the driver could build and run the provider
-Built     == l = 0 \/ R.obs.built
+\* the driver could build and run the provider (a file without any ammo may also be refused by the constructor:
+\* the same outcome class as Run ending with ErrNoAmmo)
+Built     == l = 0 \/ R.obs.built \/ NumEntries(R.items) = 0
 \* exactly the expected requests, in order: method, uri, host, effective headers, body bytes, tag
 Delivered == l = 0 \/ ~R.obs.built \/ ObsSeq = X.deliv
 \* the consumer saw the end of ammo (ok=false) exactly when the configuration bounds the provider
